@@ -34,23 +34,19 @@ func SentinelMiddleware(opts ...Option) iris.Handler {
 		}
 
 		defer entry.Exit()
-		// An iris handler has no return value: it reports a failure with ctx.SetErr. Only an error
-		// set from here on belongs to this entry (an earlier handler may have left one).
-		before := c.GetErr()
+		// An iris handler has no return value: it reports a failure with ctx.SetErr, and the context has
+		// one slot for it. An earlier handler may have left an error there and gone on: it is taken out
+		// while the chain behind the adapter runs, so that whatever is in the slot afterwards was set
+		// for this entry (also when it is the very same error value), and put back if nothing was.
+		earlier := c.GetErr()
+		if earlier != nil {
+			c.SetErr(nil)
+		}
 		c.Next()
-		if err := c.GetErr(); err != nil && !sameError(err, before) {
+		if err := c.GetErr(); err != nil {
 			sentinel.TraceError(entry, err)
+		} else if earlier != nil {
+			c.SetErr(earlier)
 		}
 	}
-}
-
-// sameError compares two errors by identity (error values of a type that cannot be compared are never
-// the same).
-func sameError(a, b error) (same bool) {
-	defer func() {
-		if recover() != nil {
-			same = false
-		}
-	}()
-	return a == b
 }
